@@ -1213,8 +1213,8 @@ Definition c20_scrub (toks : list (list N)) : list (list N) :=
 Definition c19_front (toks : list (list N)) : list (list N) :=
   match toks with
   | [mask] :: _ =>
-    (* 64 = an HTTP/1.1 tunnel whose upload is stalled: a session like the others *)
-    let bits := filter (fun b => negb (N.land mask b =? 0)) [1; 2; 4; 8; 16; 64] in
+    (* 64 / 128 = an HTTP/1.1 tunnel whose upload / download is stalled: a session like the others *)
+    let bits := filter (fun b => negb (N.land mask b =? 0)) [1; 2; 4; 8; 16; 64; 128] in
     let k := S (length bits) in                       (* the listener is participant 0 *)
     let idx := seq 0 k in
     let hist := repeat Register k ++ map Wait idx ++ [Submit] in
@@ -1224,7 +1224,12 @@ Definition c19_front (toks : list (list N)) : list (list N) :=
     let wound (b : N) :=
       match session_poll SESSIONS_SAY_GOODBYE_WHEN_FEED_STOPS all_observed (b =? 4) false with
       | Goodbye => true | _ => false end in
-    let s2 := fold_left sstep (map Finish idx ++ [Complete]) s1 in
+    (* the session of bit 128 (the last participant) belongs to a client that takes nothing: it finishes if its close is bounded *)
+    let stuck := negb (N.land mask 128 =? 0)
+                 && match h1_close HTTP1_ORDERLY_CLOSE_BOUNDED HTTP1_GRACEFUL_SHUTDOWN_TIMEOUT_MS None with
+                    | Some (t, _) => negb (t <=? 20000) | None => true end in
+    let finishing := if stuck then seq 0 (length bits) else idx in
+    let s2 := fold_left sstep (map Finish finishing ++ [Complete]) s1 in
     [[mask; if all_observed then 1 else 0;
       fold_left N.add (filter wound bits) 0;
       if completion_done s2 then 1 else 0; 0; 0;
@@ -1245,11 +1250,23 @@ Definition c14_establish (toks : list (list N)) : list (list N) :=
   | _ => REJECT_TOK
   end.
 
-(* C14: the timers of the real listener. in: [kind; handshake_T; listener_T].  out: [closed; when] *)
+(* C14: the timers of the real listener. in: [kind; handshake_T; listener_T].  out: [closed; when]
+   kind 5 (a prompt client under a very long handshake timeout): in: [5; _; listener_T] [hi; lo], the timeout is hi * 2^32 + lo seconds
+   (the runner's numbers are OCaml ints: i64::MAX does not fit in one).  out: [served] *)
 Definition c14_front (toks : list (list N)) : list (list N) :=
   match toks with
-  | [kind; hs; lt] :: _ =>
-    if kind <=? 1 then
+  | [kind; hs; lt] :: rest =>
+    if kind =? 5 then
+      match rest with
+      | [hi; lo] :: _ =>
+        match listener_handshake TLS_HANDSHAKE_HAS_ONE_DEADLINE TLS_HANDSHAKE_DEADLINE_SATURATES CLOCK_ROOM_MS FAR_FUTURE_MS
+                                 ((hi * 4294967296 + lo) * 1000) 1 1 with
+        | Some _ => [[1]]
+        | None => [[0]]
+        end
+      | _ => REJECT_TOK
+      end
+    else if kind <=? 1 then
       match establish (CLIENT_HELLO_UNDER_HANDSHAKE_TIMEOUT && TLS_ACCEPT_UNDER_HANDSHAKE_TIMEOUT) hs 100000000 None with
       | EFailed t => if t <=? 3 * hs + 500 then [[1; 1]] else [[0; 2]]
       | EConnected _ => [[0; 0]]
